@@ -183,6 +183,11 @@ def families(tier):
     # broadcast operand (bias over n only) as in gemm with vector bias
     bc = mm + [AffineMap(3, 0, (d[1],))]
     out.append(("matmul_bias_broadcast", mm + [AffineMap(3, 0, (d[1],))], (8, 8, 8), bc, 3, (1, 1, 4, 4)))
+    # dimensions that no operand indexes (pure repetition): multiplicity must be preserved
+    rep = [AffineMap(3, 0, (d[2],))] * 2
+    out.append(("repeat_dims_1d", x2, (4,), rep, 3, (8, 8)))
+    rmm = [AffineMap(4, 0, (d[1], d[3])), AffineMap(4, 0, (d[3], d[2])), AffineMap(4, 0, (d[1], d[2]))]
+    out.append(("matmul_with_repeat_dim", mm, (8, 8, 8), rmm, 4, (1, 1, 4)))
     if tier != "quick":
         # conv-like: out(oh, c) += in(oh + kh, c') ... 1D conv  (oh, kh, c)
         conv_s = [AffineMap(3, 0, (d[0] + d[1], d[2])), AffineMap(3, 0, (d[1], d[2])), AffineMap(3, 0, (d[0],))]
